@@ -147,3 +147,32 @@ Proof.
     destruct (join_least s0 s u G0 Gs P0 Ps) as (j & Hj & Pj). rewrite Hj.
     apply (IH j u (join_good s0 s j G0 Gs Hj) Gl Pj Prest).
 Qed.
+
+(* ---------- the lattice laws, up to the dict-kind / key-order equivalence ---------- *)
+(* independent of the argument order *)
+Theorem join_comm_equiv a b j :
+  good a = true -> good b = true -> st_join a b = Ok j ->
+  exists j', st_join b a = Ok j' /\ E j j' /\ E j' j.
+Proof.
+  intros Ga Gb Hj.
+  destruct (join_upper_bound a b j Ga Gb Hj) as [Pa Pb].
+  destruct (join_least b a j Gb Ga Pb Pa) as (j' & Hj' & Pj'j).
+  destruct (join_upper_bound b a j' Gb Ga Hj') as [Pb' Pa'].
+  destruct (join_least a b j' Ga Gb Pa' Pb') as (j0 & Hj0 & Pjj'). rewrite Hj in Hj0. injection Hj0 as <-.
+  exists j'. split; [exact Hj'|].
+  exact (prefix_antisym j j' (join_good a b j Ga Gb Hj) (join_good b a j' Gb Ga Hj') Pjj' Pj'j).
+Qed.
+
+(* idempotent *)
+Theorem join_idem_equiv a : good a = true -> exists j, st_join a a = Ok j /\ E a j /\ E j a.
+Proof. intros Ga. exact (join_absorbs_up_to_equiv a a Ga Ga (P_refl a Ga)). Qed.
+
+(* equal (up to the equivalence) to the other operand when one is already a prefix of it *)
+Theorem join_prefix_equiv a b :
+  good a = true -> good b = true -> P a b -> exists j, st_join a b = Ok j /\ E b j /\ E j b.
+Proof.
+  intros Ga Gb Pab.
+  destruct (join_least a b b Ga Gb Pab (P_refl b Gb)) as (j & Hj & Pjb).
+  destruct (join_upper_bound a b j Ga Gb Hj) as [_ Pbj].
+  exists j. split; [exact Hj|]. exact (prefix_antisym b j Gb (join_good a b j Ga Gb Hj) Pbj Pjb).
+Qed.
